@@ -790,29 +790,31 @@ func loopBack(call, later *ssa.Call) bool { return call == later }
 
 // leadsOnlyToReturns: from block b, following successors while pred holds, every path ends in a Return.
 func leadsOnlyToReturns(b *ssa.BasicBlock, pred func(*ssa.BasicBlock) bool) bool {
-	seen := map[*ssa.BasicBlock]bool{}
+	state := map[*ssa.BasicBlock]int{} // 1: being explored (meeting it again is a cycle), 2: shown to lead only to returns
 	var rec func(x *ssa.BasicBlock) bool
 	rec = func(x *ssa.BasicBlock) bool {
-		if seen[x] {
+		switch state[x] {
+		case 1:
 			return false // a cycle: continues the loop
+		case 2:
+			return true // reached again along another branch (a join inside the region)
 		}
-		seen[x] = true
+		state[x] = 1
 		if !pred(x) {
 			return false
 		}
 		if len(x.Instrs) > 0 {
 			if _, ok := x.Instrs[len(x.Instrs)-1].(*ssa.Return); ok {
+				state[x] = 2
 				return true
 			}
-		}
-		if len(x.Succs) == 0 {
-			return true
 		}
 		for _, s := range x.Succs {
 			if !rec(s) {
 				return false
 			}
 		}
+		state[x] = 2
 		return true
 	}
 	return rec(b)
